@@ -155,7 +155,7 @@ pub fn cluster_check(property: &str, tier: &str) -> Option<Check> {
             // crash (process / power) or a graceful stop, then restart and further elections
             let mut menu = Menu::default();
             menu.heartbeats = false;
-            menu.vote_answers = vec![VoteAns::Deliver, VoteAns::LoseResp];
+            menu.vote_answers = vec![VoteAns::Deliver, VoteAns::LoseResp, VoteAns::Lose];
             // the property quantifies over process crashes (power loss of the meta store is C21)
             menu.crashes = vec![CrashMode::Process];
             menu.stops = true;
